@@ -347,18 +347,32 @@ def net_check(net, model, model2, op, obs, pre, subject="network"):
 
 def light_start():
     t = spec.mk_light({"id": 11, "position": [1.0, 1.0], "cycle": [("RED", 2), ("GREEN", 3), ("YELLOW", 1)], "offset": 1})
-    return t, {}
+    # the model is the primary data AS IT WAS ASSIGNED through the public API (what the caller knows), not what the object reports about itself
+    return t, {"elements": [["RED", 2], ["GREEN", 3], ["YELLOW", 1]], "offset": 1}
 
 
 def light_enabled(model):
     return [["q"], ["cycle_elements=", [["GREEN", 1], ["RED", 4]]], ["cycle_elements=", [["RED", 2], ["GREEN", 3], ["YELLOW", 1], ["RED_YELLOW", 2]]],
-            ["element.duration=", 0, 5], ["element.duration=", 1, 1], ["element.state=", 0, "GREEN"], ["time_offset=", 0], ["time_offset=", 4],
+            ["element.duration=", 0, 5], ["element.duration=", 1, 1], ["element.state=", 0, "GREEN"], ["time_offset=", 0], ["time_offset=", 4], ["time_offset=", 13], ["time_offset=", -3],
             ["light.cycle=", [["YELLOW", 2], ["RED", 2]], 3], ["elements.append", ["INACTIVE", 2]]]
 
 
 def light_step(t, model, op):
     from commonroad.scenario.traffic_light import TrafficLightCycle, TrafficLightCycleElement, TrafficLightState
     k = op[0]
+    els, off = [list(e) for e in model.get("elements", [])], model.get("offset", 0)
+    if k == "cycle_elements=":
+        els = [list(e) for e in op[1]]
+    elif k == "element.duration=" and op[1] < len(els):
+        els[op[1]][1] = op[2]
+    elif k == "element.state=" and op[1] < len(els):
+        els[op[1]][0] = op[2]
+    elif k == "time_offset=":
+        off = op[1]
+    elif k == "light.cycle=":
+        els, off = [list(e) for e in op[1]], op[2]
+    elif k == "elements.append":
+        els = els + [list(op[1])]
     try:
         c = t.traffic_light_cycle
         if k == "q":
@@ -381,7 +395,7 @@ def light_step(t, model, op):
         obs = ("ok", None)
     except Exception as e:
         obs = ("raises:" + type(e).__name__, str(e)[:200])
-    return obs, {}
+    return obs, {"elements": els, "offset": off}
 
 
 def light_fresh(t):
@@ -400,7 +414,7 @@ def light_queries(t):
 
 def light_canon(t, model):
     c = t.traffic_light_cycle
-    return (json.dumps(snap.light(t), sort_keys=True, default=str), hasattr(c, "_cycle_init_timesteps"))
+    return (json.dumps(snap.light(t), sort_keys=True, default=str), hasattr(c, "_cycle_init_timesteps"), json.dumps(model, sort_keys=True))
 
 
 def light_check(t, model, model2, op, obs, pre):
@@ -416,6 +430,17 @@ def light_check(t, model, model2, op, obs, pre):
     bad = [k for k in fresh if fresh[k] != live[k]]
     if bad:
         out.append((f"C11|traffic-light|{op[0]}->get_state_at_time_step|stale", f"after {op}: {bad[0]}: live {live[bad[0]]} fresh {fresh[bad[0]]} ({len(bad)} time steps differ)"))
+        return out
+    # ... and like a light constructed from the values that were ASSIGNED (elements, durations, offset) in this history
+    try:
+        want = light_queries(spec.mk_light({"id": 11, "position": [1.0, 1.0], "cycle": [tuple(e) for e in model2["elements"]], "offset": model2["offset"]}))
+    except Exception as e:
+        out.append((f"C11|traffic-light|{op[0]}->reference-light|raises:{type(e).__name__}", repr(e)))
+        return out
+    bad = [k for k in want if want[k] != live[k]]
+    if bad:
+        out.append((f"C11|traffic-light|{op[0]}->get_state_at_time_step|differs-from-light-built-from-the-assigned-values",
+                    f"after {op}: {bad[0]}: live {live[bad[0]]}, a light built from elements {model2['elements']} and offset {model2['offset']} gives {want[bad[0]]}"))
     return out
 
 
